@@ -353,6 +353,10 @@ class Shelxfile():
                 print(e)
                 print(f'*** CANNOT OPEN NESTED INPUT FILE {include_filename} ***')
             return []
+        # An END instruction terminates the include file only, it is not the end of the res file:
+        for num, included_line in enumerate(newfile):
+            if included_line[:4].upper().rstrip() == 'END':
+                return newfile[:num]
         return newfile
 
     def reload(self) -> None:
